@@ -384,6 +384,70 @@ def make_cmap(a):
     return CoordinateMap(a.function_domain, a.function_range, fwd, inv)
 
 
+def cmap_near_miss_refusals(ck):
+    """compose() of a general CoordinateMap with a map whose adjoining system differs in exactly one attribute
+    (system name, coordinate dtype in either direction, one coordinate name, order of the names) must be refused,
+    on either side, exactly as the AffineTransform path refuses it."""
+    from nipy.core.reference import coordinate_map as cmod
+    from nipy.core.reference.coordinate_system import CoordinateSystemError
+    from nipy.core.api import AffineTransform, CoordinateSystem as CS
+    rng = ck.rng("cmap-near-miss")
+    n = 0
+    for case in range(ck.n(30, 200)):
+        a = rand_aff(rng, 3)
+        base_dt = np.int64 if case % 2 else np.float64
+        dom = CS(a.function_domain.coord_names, a.function_domain.name, base_dt)
+        ran = CS(a.function_range.coord_names, a.function_range.name, base_dt)
+        a = AffineTransform(dom, ran, np.asarray(a.affine).astype(base_dt))
+        try:
+            cm = make_cmap(a)
+        except Exception:
+            continue
+        for side in ("left", "right"):
+            s0 = cm.function_range if side == "left" else cm.function_domain
+            other_dt = np.float64 if np.dtype(s0.coord_dtype).kind == "i" else np.int64
+            variants = [("name", CS(s0.coord_names, s0.name + "2", s0.coord_dtype)),
+                        ("dtype", CS(s0.coord_names, s0.name, other_dt)),
+                        ("one-coordinate", CS(("qq",) + tuple(s0.coord_names[1:]), s0.name, s0.coord_dtype))]
+            if s0.ndim > 1:
+                variants.append(("order", CS(tuple(s0.coord_names[1:]) + tuple(s0.coord_names[:1]), s0.name, s0.coord_dtype)))
+            for tag, sysx in variants:
+                k = int(rng.integers(1, 4))
+                if side == "left":
+                    M = np.zeros((k + 1, sysx.ndim + 1), dtype=np.int64)
+                    M[:-1, :-1] = rng.integers(-2, 3, (k, sysx.ndim)); M[:-1, -1] = rng.integers(-3, 4, k); M[-1, -1] = 1
+                    other = AffineTransform(sysx, CS(["o%d" % i for i in range(k)], "out", sysx.coord_dtype), M.astype(sysx.coord_dtype))
+                    f = lambda o: cmod.compose(other, o)
+                else:
+                    M = np.zeros((sysx.ndim + 1, k + 1), dtype=np.int64)
+                    M[:-1, :-1] = rng.integers(-2, 3, (sysx.ndim, k)); M[:-1, -1] = rng.integers(-3, 4, sysx.ndim); M[-1, -1] = 1
+                    other = AffineTransform(CS(["n%d" % i for i in range(k)], "in", sysx.coord_dtype), sysx, M.astype(sysx.coord_dtype))
+                    f = lambda o: cmod.compose(o, other)
+                # a second general map on the other side as well (no AffineTransform in the chain at all)
+                for kind, mk in (("affine-neighbour", lambda: other), ("cmap-neighbour", lambda: make_cmap(other))):
+                    try:
+                        oth = mk()
+                    except Exception:
+                        continue
+                    g = (lambda o, oth=oth: cmod.compose(oth, o)) if side == "left" else (lambda o, oth=oth: cmod.compose(o, oth))
+                    n += 1
+                    ck.count(("cmap-near-miss", case, side, tag, kind), nontrivial=True, bucket="cmap-near-miss:%s:%s" % (tag, np.dtype(base_dt).kind))
+                    meta = {"map": caff(a), "side": side, "differs_in": tag, "base_dtype": str(np.dtype(base_dt)), "neighbour": caff(other), "neighbour_kind": kind}
+                    try:
+                        g(a)
+                        ck.fail("compose/near-miss-accepted/affine/%s" % tag, "AffineTransform compose accepts systems that differ in %s" % tag, meta)
+                    except (ValueError, CoordinateSystemError):
+                        pass
+                    try:
+                        g(cm)
+                        ck.fail("cmap/compose/near-miss-accepted/%s" % tag,
+                                "compose of a general CoordinateMap accepts a neighbour whose adjoining coordinate system differs in %s only "
+                                "(the AffineTransform path refuses it)" % tag, meta)
+                    except (ValueError, CoordinateSystemError):
+                        pass
+    ck.section("cmap-near-miss", cases=n)
+
+
 def cmaps(ck):
     """General CoordinateMap: chains of reorder / rename / compose / product on a CoordinateMap whose
     functions are those of an integer affine; compared with the Coq CMap model (vm_compute), with the
@@ -461,13 +525,14 @@ def cmaps(ck):
                 continue
             ops.append(cop)
             res_c = res_a = None
+            from nipy.core.reference.coordinate_system import CoordinateSystemError
             try:
                 res_c = f(cur_c)
-            except (ValueError, IndexError) as e:
+            except (ValueError, IndexError, CoordinateSystemError) as e:
                 refused = True
             try:
                 res_a = f(cur_a)
-            except (ValueError, IndexError):
+            except (ValueError, IndexError, CoordinateSystemError):
                 pass
             if refused:
                 if res_a is not None:
@@ -1077,6 +1142,7 @@ def run(ck):
         ck.note("inverse() returned a map for %d exactly singular integer matrices (numpy.linalg.inv did not raise); "
                 "no inverse exists there, so the round-trip clause does not apply: e.g. %s" % (len(ck_note_singular), ck_note_singular[0][:300]))
     cmaps(ck)
+    cmap_near_miss_refusals(ck)
     cmaps_more(ck)
     axes(ck)
     batches(ck)
